@@ -122,9 +122,28 @@ def s3(prog, ctx):
     ctx.floor("S3", "per-experiment grouper constructors", n, 1)
 
 
+def reset_helpers(prog, cname, attr):
+    """Functions / static methods whose whole body is `Cls.attr = <fresh>` (or .clear()) statements: calling one IS the reset."""
+    out = {}
+    for m, q, f in prog.all_functions():
+        body = [st for st in f.body if not (isinstance(st, ast.Expr) and isinstance(st.value, ast.Constant))]
+        if not body:
+            continue
+        def is_reset(st):
+            if isinstance(st, ast.Assign) and any(isinstance(t, ast.Attribute) and isinstance(t.value, ast.Name) and t.value.id[:1].isupper() for t in st.targets):
+                return True
+            return isinstance(st, ast.Expr) and isinstance(st.value, ast.Call) and isinstance(st.value.func, ast.Attribute) and st.value.func.attr == "clear"
+        if all(is_reset(st) for st in body) and any(
+                (isinstance(st, ast.Assign) and any(dotted(t) == "%s.%s" % (cname, attr) for t in st.targets))
+                or (isinstance(st, ast.Expr) and src(st.value.func) == "%s.%s.clear" % (cname, attr)) for st in body):
+            out[f.name] = f
+    return out
+
+
 def reset_sites(prog, cname, attr):
-    """Unconditional `Cls.attr = <fresh>` at top level of a per-experiment / per-task function."""
+    """Unconditional `Cls.attr = <fresh>` (or a call of a function that does nothing else) at top level of a per-experiment / per-task function."""
     out = []
+    helpers = reset_helpers(prog, cname, attr)
     for q in ("DatasetProcessor.process_sample", "construct_models_in_parallel", "collect_reads_in_parallel",
               "DatasetProcessor.process_assigned_reads", "DatasetProcessor.collect_reads"):
         f = prog.try_func(DSP, q)
@@ -134,6 +153,8 @@ def reset_sites(prog, cname, attr):
             if isinstance(st, ast.Assign) and any(dotted(t) == "%s.%s" % (cname, attr) for t in st.targets):
                 out.append((q, st))
             if isinstance(st, ast.Expr) and isinstance(st.value, ast.Call) and src(st.value.func) == "%s.%s.clear" % (cname, attr):
+                out.append((q, st))
+            if isinstance(st, ast.Expr) and isinstance(st.value, ast.Call) and (call_name(st.value) or "").split(".")[-1] in helpers:
                 out.append((q, st))
     return out
 
